@@ -53,7 +53,14 @@ type Edge struct {
 	Succ int
 }
 
-func (e Edge) To() *ssa.BasicBlock { return e.From.Succs[e.Succ] }
+// To is the target block. A pseudo edge (Succ < 0, see AcceptEdges) stands for "the tail call whose
+// results the block's return passes on succeeded"; its target is the block itself.
+func (e Edge) To() *ssa.BasicBlock {
+	if e.Succ < 0 {
+		return e.From
+	}
+	return e.From.Succs[e.Succ]
+}
 
 // EdgeFact returns the fact established on the given edge, or nil for unconditional edges.
 func (o *Origins) EdgeFact(e Edge) *Fact {
